@@ -6,6 +6,7 @@ import (
 	"strings"
 
 	"github.com/drshriveer/gtools/gconfig"
+	"gopkg.in/yaml.v3"
 
 	"gtverif/internal/gal"
 )
@@ -150,8 +151,43 @@ func wordRuns(t Tree, into map[string]bool) {
 // RunCase performs the load and the lookups with the real library and writes the case.
 // templates: also record the state of every environment variable a string of the document
 // could name (so that the model sees the environment the library saw).
+var flagSerial int
+
 func RunCase(out *gal.Out, kind string, in Input, orc *Oracle, extraKeys []string, templates bool) {
-	text := Yaml(in.Doc)
+	var text []byte
+	if in.RawYaml != "" {
+		text = []byte(in.RawYaml)
+		var back map[string]any
+		if err := yaml.Unmarshal(text, &back); err == nil {
+			in.Doc = FromAny(map[string]any(back))
+		} else {
+			in.Doc = Null() // FromBytes fails on it as well (the model: not a map -> error)
+		}
+	} else {
+		text = Yaml(in.Doc)
+	}
+	// a flagged dimension gets a name that is new to the process-wide flag set
+	dims := make([]DimReg, len(in.Dims))
+	copy(dims, in.Dims)
+	env := map[string]string{}
+	for k, v := range in.Env {
+		env[k] = v
+	}
+	for i := range dims {
+		if dims[i].Flag != nil {
+			flagSerial++
+			old := dims[i].Name
+			dims[i].Name = fmt.Sprintf("%s_f%d", strings.SplitN(old, "_f", 2)[0], flagSerial)
+			// environment variables that named this dimension follow the new name
+			for _, f := range []func(string) string{func(s string) string { return s }, strings.ToUpper, strings.ToLower} {
+				if v, ok := env[f(old)]; ok {
+					delete(env, f(old))
+					env[f(dims[i].Name)] = v
+				}
+			}
+		}
+	}
+	in.Dims, in.Env = dims, env
 	c := Case{Kind: kind, Dims: in.Dims, Env: map[string]string{}, Doc: in.Doc, Yaml: string(text), Oracle: orc,
 		DimVals: []int{}, Gets: []GetObs{}, Strs: []StrObs{}}
 	for k, v := range in.Env {
@@ -196,6 +232,11 @@ func RunCase(out *gal.Out, kind string, in Input, orc *Oracle, extraKeys []strin
 		strs[v] = true
 	}
 	for _, d := range in.Dims {
+		if d.Flag != nil {
+			strs[*d.Flag] = true
+		}
+	}
+	for _, d := range in.Dims {
 		c.Tables = append(c.Tables, Table(d.Enum, strs))
 	}
 	if cfg != nil {
@@ -232,8 +273,12 @@ func GalCase(c Case) string {
 	sb.WriteString("{| cc_dims := ")
 	dims := make([]string, len(c.Dims))
 	for i, d := range c.Dims {
+		fl := "None"
+		if d.Flag != nil {
+			fl = "Some " + GStr(*d.Flag)
+		}
 		dims[i] = "{| dc_name := " + GStr(d.Name) + "; dc_table := " + GTable(c.Tables[i]) +
-			"; dc_default := " + gal.Nat(d.Default) + " |}"
+			"; dc_default := " + gal.Nat(d.Default) + "; dc_flag := " + fl + " |}"
 	}
 	sb.WriteString(gal.List(dims))
 	sb.WriteString("; cc_env := " + GEnv(c.Env))
